@@ -90,7 +90,7 @@ def gen_cfg(k, nshards, nin, rot, div):
 
 def tlc_cases(ctx):
     th = ctx.tier == 'thorough'
-    nin, div = (2, 1) if th else (1, 12)
+    nin, div = (1, 1) if th else (1, 12)
     nsh = SHARDS if th else 4
 
     def one(k):
@@ -104,7 +104,7 @@ def tlc_cases(ctx):
             cases += pr
     if len(cases) < 800:
         raise Inconclusive('GEN produced too few cases: %d' % len(cases))
-    s = ctx.tlc('JqCoreSim', 'jsim.cfg', cfg_text='SPECIFICATION Spec\nCONSTRAINT Emit\nCHECK_DEADLOCK FALSE\n', simulate='num=%d' % (4000 if th else 300),
+    s = ctx.tlc('JqCoreSim', 'jsim.cfg', cfg_text='SPECIFICATION Spec\nCONSTRAINT Emit\nCHECK_DEADLOCK FALSE\n', simulate='num=%d' % (2500 if th else 300),
                 depth=3, timeout=1800, name='sim_jq')
     if s.rc != 0:
         raise Inconclusive('JqCoreSim failed rc=%s' % s.rc)
@@ -196,7 +196,7 @@ def run(ctx):
     if r.returncode != 0:
         raise Inconclusive('c07 replay failed: %s' % r.stderr[-1500:])
     e2 = os.path.join(ctx.build, 'events_rand.ndjson')
-    r = ctx.run([binp, 'rand', str(12000 if th else 1500), e2], timeout=3000 if th else 900)
+    r = ctx.run([binp, 'rand', str(8000 if th else 1500), e2], timeout=3000 if th else 900)
     if r.returncode != 0:
         raise Inconclusive('c07 rand failed: %s' % r.stderr[-1500:])
     ev1, ev2 = vlib.read_ndjson(e1), vlib.read_ndjson(e2)
